@@ -23,6 +23,10 @@ def demo_cmd(demo_path):
     if re.search(r"^\+\+\+ b/dropshot/src/", d, re.M) and mods:
         for md in mods:
             cmds.append(f"cargo test --offline -p dropshot --lib {md}")
+    if re.search(r"^\+\+\+ b/dropshot/src/", d, re.M) and not mods:
+        # tests added inside an existing #[cfg(test)] module: run them by function name
+        for fn in re.findall(r"^\+\s*(?:async\s+)?fn\s+(test_[A-Za-z0-9_]+|[A-Za-z0-9_]*demo[A-Za-z0-9_]*)\s*\(", d, re.M):
+            cmds.append(f"cargo test --offline -p dropshot --lib {fn}")
     return cmds
 
 def run_demo(cmds):
